@@ -3,7 +3,7 @@
     syntactically valid pointers), and move = remove at from, add at path. *)
 From Coq Require Import Lia ZArith List Bool Permutation.
 From CJ Require Import Base Dbl Tree PointerDefs PointerProofs CompareDefs PatchDefs PatchProofs PatchRobust Rfc6902
-  PatchConform PatchOps PatchApply.
+  PatchConform PatchOps PatchApply PatchTest.
 Import ListNotations.
 Local Open Scope Z_scope.
 
@@ -177,7 +177,64 @@ Proof.
     assert (HG : skipn (length F) P <> []).
     { intro E. rewrite E in U2. cbn in U2. inversion U2. subst h. contradiction. }
     assert (EP : pstr = fstr ++ join (skipn (length F) P)).
-    { rewrite Jp at 1. rewrite <- (firstn_skipn (length F) P) at 1. rewrite EF. unfold join. rewrite map_app, concat_app. fold (join F). rewrite <- Jf. reflexivity. }
+    { transitivity (join P); [exact Jp|].
+      rewrite <- (firstn_skipn (length F) P) at 1. rewrite EF. unfold join. rewrite map_app, concat_app.
+      f_equal. symmetry. exact Jf. }
     rewrite EP. rewrite firstn_app_exact, skipn_app_exact. split; [reflexivity|].
     destruct (skipn (length F) P) as [|g G]; [contradiction|]. reflexivity.
+Qed.
+
+(** ---------- move ---------- *)
+Theorem apply_patch_move doc p ftoks toks : dwf doc -> op_wf p -> op_of p = Some (Move ftoks toks) ->
+  conforms doc (Move ftoks toks) (apply_patch doc p true) p.
+Proof.
+  intros Hd Hw Ho. destruct (op_of_inv _ _ Ho) as (opname & toks' & Eop & Ept & (Eo & Et & Ef)). subst toks'.
+  destruct (path_lookup _ _ Hw Ept) as (j & pathn & pstr & Gp & Sp & Vp & Np & Pp).
+  destruct (from_lookup _ _ Hw Ef) as (jf & fromn & fstr & Gf & Sf & Vf & Nf & Pf).
+  unfold conforms, apply_patch. rewrite Gp, Sp. cbn [negb]. rewrite (decode_op _ _ Hw Eop), Eo. cbn [bind]. rewrite Vp.
+  rewrite !andb_false_r. cbn [orb bind]. rewrite Gf, Sf. cbn [negb]. rewrite Vf.
+  rewrite (own_child_check fstr pstr ftoks toks Pf Pp). cbn [eval1].
+  destruct (proper_prefix ftoks toks); [do 2 eexists; split; [reflexivity | discriminate]|].
+  pose proof (detach_conform doc fstr ftoks Hd Nf Pf) as D.
+  destruct (Rfc6902.remove doc ftoks) as [d1|] eqn:R.
+  2:{ rewrite D. cbn [bind]. do 2 eexists. split; [reflexivity|]. destruct (get doc ftoks); discriminate. }
+  destruct D as (it & Ed & Eg). rewrite Ed, Eg. cbn [bind].
+  destruct (get_dwf_depth _ _ _ Hd Eg) as [Hit _].
+  pose proof (remove_dwf _ _ _ Hd R) as Hd1.
+  destruct pstr as [|c0 p0].
+  - assert (toks = []) by (apply (parse_nil_iff [] toks Pp); reflexivity). subst toks.
+    cbn [finish_add bind]. do 2 eexists. split; [reflexivity|]. cbn. split; [reflexivity|].
+    apply doc_eq_set_key. apply doc_eq_refl. exact Hit.
+  - destruct (finish_add_conform d1 it it (c0 :: p0) toks Hd1 Np ltac:(discriminate) Pp (doc_eq_refl _ Hit)) as (st & doc' & Efa & Hr).
+    rewrite Efa. cbn [bind]. exists st, doc'. split; [reflexivity|].
+    destruct (Rfc6902.add d1 toks it); [exact Hr | apply Hr].
+Qed.
+
+(** ---------- all six operations ---------- *)
+Definition op_values_ok (o : op) : Prop :=
+  match o with
+  | Add _ v | Replace _ v => dwf v /\ shallow v
+  | Test _ v => dwf v
+  | _ => True
+  end.
+
+Theorem apply_patch_conform doc p o : dwf doc -> shallow doc -> op_wf p -> op_of p = Some o -> op_values_ok o -> o <> Remove [] ->
+  exists st doc' p', apply_patch doc p true = Ok (st, doc', p') /\
+    match eval1 doc o with
+    | Some d' => st = 0 /\ doc_eq doc' d'
+    | None => st <> 0
+    end.
+Proof.
+  intros Hd Hs Hw Ho Hv Hne.
+  assert (G : forall r, conforms doc o r p -> exists st doc' p', r = Ok (st, doc', p') /\
+            match eval1 doc o with Some d' => st = 0 /\ doc_eq doc' d' | None => st <> 0 end).
+  { intros r (st & doc' & E & H). exists st, doc', p. split; assumption. }
+  destruct o as [q v|q|q v|f q|f q|q v]; cbn [op_values_ok] in Hv.
+  - apply G. apply apply_patch_add; tauto.
+  - apply G. apply apply_patch_remove; try assumption. intro E. apply Hne. subst. reflexivity.
+  - apply G. apply apply_patch_replace; tauto.
+  - apply G. apply apply_patch_move; assumption.
+  - apply G. apply apply_patch_copy; assumption.
+  - destruct (PatchTest.apply_patch_test doc p q v Hd Hw Ho Hv) as (st & doc' & p' & E & H).
+    exists st, doc', p'. split; [exact E|]. destruct (eval1 doc (Test q v)); [exact H | apply H].
 Qed.
